@@ -468,3 +468,236 @@ Proof.
   - intro H. split; [apply declare_only; exact H | apply (metamodel_declared_no_reserved names); exact H].
   - intros [[H|H] Hr]; [apply declare_keeps; exact H | apply declare_adds; assumption].
 Qed.
+
+(* ---------------------------------------------------------------- the fuel of run_op always suffices *)
+
+Definition unregb (a : list (nat * nat)) (f : nat) : bool :=
+  match repo_find f a with None => true | Some _ => false end.
+(* number of files of the world that have no entry in the repository *)
+Definition unreg (w : list file) (a : list (nat * nat)) : nat := length (filter (unregb a) (seq 0 (length w))).
+
+Definition repo_le (a b : list (nat * nat)) : Prop := forall f, repo_find f a <> None -> repo_find f b <> None.
+
+Lemma repo_le_refl a : repo_le a a.
+Proof. intros f H. exact H. Qed.
+
+Lemma repo_le_trans a b c : repo_le a b -> repo_le b c -> repo_le a c.
+Proof. intros H1 H2 f H. apply H2, H1, H. Qed.
+
+Lemma repo_set_find f id a f' :
+  repo_find f' (repo_set f id a) = if Nat.eqb f' f then Some id else repo_find f' a.
+Proof.
+  induction a as [|[f0 id0] t IH]; cbn [repo_set repo_find].
+  - reflexivity.
+  - destruct (Nat.eqb_spec f f0) as [->|Hn]; cbn [repo_find].
+    + destruct (Nat.eqb f' f0); reflexivity.
+    + rewrite IH. destruct (Nat.eqb_spec f' f0) as [->|Hn2]; [|reflexivity].
+      destruct (Nat.eqb_spec f0 f) as [E|_]; [congruence | reflexivity].
+Qed.
+
+Lemma repo_le_set f id a : repo_le a (repo_set f id a).
+Proof. intros f' H. rewrite repo_set_find. destruct (Nat.eqb f' f); [discriminate | exact H]. Qed.
+
+Lemma repo_find_app f a b :
+  repo_find f (a ++ b) = match repo_find f a with Some x => Some x | None => repo_find f b end.
+Proof.
+  induction a as [|[f0 id0] t IH]; cbn [app repo_find]; [reflexivity|].
+  destruct (Nat.eqb f f0); [reflexivity | exact IH].
+Qed.
+
+Lemma repo_le_register fn id a : repo_le a (repo_register_main fn id a).
+Proof.
+  unfold repo_register_main. destruct fn as [f|]; [|apply repo_le_refl].
+  destruct (repo_find f a); [apply repo_le_refl|].
+  intros f' H. rewrite repo_find_app. destruct (repo_find f' a); [discriminate | contradiction].
+Qed.
+
+Lemma filter_len_le {A} (f g : A -> bool) l :
+  (forall x, In x l -> g x = true -> f x = true) -> length (filter g l) <= length (filter f l).
+Proof.
+  induction l as [|x l IH]; intro H; cbn [filter]; [lia|].
+  assert (IH' : length (filter g l) <= length (filter f l)) by (apply IH; intros y Hy; apply H; right; exact Hy).
+  destruct (g x) eqn:Eg.
+  - rewrite (H x (or_introl eq_refl) Eg). cbn [length]. lia.
+  - destruct (f x); cbn [length]; lia.
+Qed.
+
+Lemma filter_len_lt {A} (f g : A -> bool) l x0 :
+  (forall x, In x l -> g x = true -> f x = true) -> In x0 l -> f x0 = true -> g x0 = false ->
+  length (filter g l) < length (filter f l).
+Proof.
+  induction l as [|x l IH]; intros H Hin Hf Hg; [destruct Hin|]. cbn [filter].
+  assert (Hl : forall y, In y l -> g y = true -> f y = true) by (intros y Hy; apply H; right; exact Hy).
+  destruct Hin as [->|Hin].
+  - rewrite Hf, Hg. cbn [length]. pose proof (filter_len_le f g l Hl). lia.
+  - pose proof (IH Hl Hin Hf Hg) as IH'. destruct (g x) eqn:Eg.
+    + rewrite (H x (or_introl eq_refl) Eg). cbn [length]. lia.
+    + destruct (f x); cbn [length]; lia.
+Qed.
+
+Lemma unregb_mono a b x : repo_le a b -> unregb b x = true -> unregb a x = true.
+Proof.
+  unfold unregb. intros H Hb. destruct (repo_find x a) eqn:Ea; [|reflexivity].
+  assert (X : repo_find x b <> None) by (apply H; rewrite Ea; discriminate).
+  destruct (repo_find x b); [discriminate | contradiction].
+Qed.
+
+Lemma unreg_mono w a b : repo_le a b -> unreg w b <= unreg w a.
+Proof. intro H. unfold unreg. apply filter_len_le. intros x _. apply unregb_mono. exact H. Qed.
+
+Lemma unreg_set_lt w f id a :
+  f < length w -> repo_find f a = None -> unreg w (repo_set f id a) < unreg w a.
+Proof.
+  intros Hf Ha. unfold unreg. apply filter_len_lt with (x0 := f).
+  - intros x _. apply unregb_mono. apply repo_le_set.
+  - apply in_seq. lia.
+  - unfold unregb. rewrite Ha. reflexivity.
+  - unfold unregb. rewrite repo_set_find, Nat.eqb_refl. reflexivity.
+Qed.
+
+Lemma unreg_le_len w a : unreg w a <= length w.
+Proof.
+  unfold unreg. rewrite <- (seq_length (length w) 0) at 2.
+  generalize (seq 0 (length w)). intro l. induction l as [|x l IH]; cbn [filter length]; [lia|].
+  destruct (unregb a x); cbn [length]; lia.
+Qed.
+
+Lemma unreg_pos w f a : f < length w -> repo_find f a = None -> 1 <= unreg w a.
+Proof.
+  intros Hf Ha. unfold unreg.
+  assert (Hin : In f (filter (unregb a) (seq 0 (length w)))).
+  { apply filter_In. split; [apply in_seq; lia | unfold unregb; rewrite Ha; reflexivity]. }
+  destruct (filter (unregb a) (seq 0 (length w))); [destruct Hin | cbn [length]; lia].
+Qed.
+
+Definition mono (s s' : lstate) : Prop := repo_le (allm s) (allm s').
+
+Section LoopsFuel.
+  Variable rec : nat -> file -> lstate -> res.
+  Variable w : list file.
+  Hypothesis rec_mono : forall f fr s s', rec f fr s = Ok s' -> mono s s'.
+
+  Lemma load_files_mono fs : forall s s', load_files rec w fs s = Ok s' -> mono s s'.
+  Proof.
+    induction fs as [|f fs IH]; intros s s' H; cbn [load_files] in H.
+    - inversion H; subst. apply repo_le_refl.
+    - destruct (repo_find f (allm s)); [apply IH; exact H|].
+      destruct (nth_error w f) as [fr|]; [|discriminate].
+      destruct (rec f fr s) as [s1|e] eqn:E; [|discriminate].
+      eapply repo_le_trans; [eapply rec_mono; exact E | apply IH; exact H].
+  Qed.
+
+  Lemma load_imps_step prov fn id p i l s :
+    load_imps rec w prov fn id p (i :: l) s = Fail ENoFile \/
+    load_imps rec w prov fn id p (i :: l) s =
+      match resolve i p with
+      | None => Fail EMissing
+      | Some fs => match load_files rec w fs {| heap := heap s; allm := repo_register_main fn id (allm s) |} with
+                   | Ok s1 => load_imps rec w prov fn id p l s1
+                   | Fail e => Fail e end end.
+  Proof. cbn [load_imps]. destruct prov; try (right; reflexivity). destruct fn; [right; reflexivity | left; reflexivity]. Qed.
+
+  Lemma load_imps_mono prov fn id p l : forall s s', load_imps rec w prov fn id p l s = Ok s' -> mono s s'.
+  Proof.
+    induction l as [|i l IH]; intros s s' H.
+    - cbn [load_imps] in H. inversion H; subst. apply repo_le_refl.
+    - destruct (load_imps_step prov fn id p i l s) as [E|E]; rewrite E in H; [discriminate|].
+      destruct (resolve i p) as [fs|]; [|discriminate].
+      destruct (load_files rec w fs _) as [s1|e] eqn:E1; [|discriminate].
+      eapply repo_le_trans; [|apply IH; exact H].
+      eapply repo_le_trans; [|eapply load_files_mono; exact E1].
+      cbn [allm]. apply repo_le_register.
+  Qed.
+
+  Variable bound : nat.
+  Hypothesis rec_nofuel : forall f fr s,
+    repo_find f (allm s) = None -> nth_error w f = Some fr -> unreg w (allm s) <= bound -> rec f fr s <> Fail EFuel.
+
+  Lemma load_files_nofuel fs : forall s, unreg w (allm s) <= bound -> load_files rec w fs s <> Fail EFuel.
+  Proof.
+    induction fs as [|f fs IH]; intros s Hb; cbn [load_files]; [discriminate|].
+    destruct (repo_find f (allm s)) eqn:Ef; [apply IH; exact Hb|].
+    destruct (nth_error w f) as [fr|] eqn:En; [|discriminate].
+    destruct (rec f fr s) as [s1|e] eqn:E.
+    - apply IH. pose proof (unreg_mono w _ _ (rec_mono _ _ _ _ E)). lia.
+    - intro X. inversion X; subst. exact (rec_nofuel f fr s Ef En Hb E).
+  Qed.
+
+  Lemma load_imps_nofuel prov fn id p l : forall s, unreg w (allm s) <= bound -> load_imps rec w prov fn id p l s <> Fail EFuel.
+  Proof.
+    induction l as [|i l IH]; intros s Hb.
+    - cbn [load_imps]. discriminate.
+    - destruct (load_imps_step prov fn id p i l s) as [E|E]; rewrite E; [discriminate|].
+      destruct (resolve i p) as [fs|]; [|discriminate].
+      set (s1 := {| heap := heap s; allm := repo_register_main fn id (allm s) |}).
+      assert (Hb1 : unreg w (allm s1) <= bound).
+      { pose proof (unreg_mono w _ _ (repo_le_register fn id (allm s))). cbn [allm s1]. lia. }
+      destruct (load_files rec w fs s1) as [s2|e] eqn:E1.
+      + apply IH. pose proof (unreg_mono w _ _ (load_files_mono _ _ _ E1)). lia.
+      + intro X. inversion X; subst. exact (load_files_nofuel fs s1 Hb1 E1).
+  Qed.
+End LoopsFuel.
+
+Lemma load_new_mono fuel : forall w prov opn fn fr p reg s s',
+  load_new fuel w prov opn fn fr p reg s = Ok s' -> mono s s'.
+Proof.
+  induction fuel as [|fuel IH]; intros w prov opn fn fr p reg s s' H; cbn [load_new] in H; [discriminate|].
+  destruct (f_prim fr).
+  - destruct (reg || is_loader prov); [discriminate|]. inversion H; subst. apply repo_le_refl.
+  - assert (M1 : repo_le (allm s) (if reg then match fn with Some f => repo_set f (length (heap s)) (allm s) | None => allm s end else allm s)).
+    { destruct reg; [|apply repo_le_refl]. destruct fn; [apply repo_le_set | apply repo_le_refl]. }
+    destruct (is_loader prov).
+    + cbn [heap] in H. rewrite nth_error_snoc in H. cbn [m_params] in H.
+      eapply repo_le_trans; [exact M1|].
+      eapply load_imps_mono in H; [exact H|]. intros f fr' s0 s0' H0. eapply IH. exact H0.
+    + inversion H; subst. exact M1.
+Qed.
+
+Lemma load_new_import_nofuel fuel : forall w prov opn p f fr s,
+  repo_find f (allm s) = None -> nth_error w f = Some fr -> unreg w (allm s) <= fuel ->
+  load_new fuel w prov opn (Some f) fr p true s <> Fail EFuel.
+Proof.
+  induction fuel as [|fuel IH]; intros w prov opn p f fr s Hf Hn Hb.
+  - assert (Hlt : f < length w) by (apply nth_error_Some; rewrite Hn; discriminate).
+    pose proof (unreg_pos w f (allm s) Hlt Hf). lia.
+  - assert (Hlt : f < length w) by (apply nth_error_Some; rewrite Hn; discriminate).
+    cbn [load_new]. destruct (f_prim fr); [cbn [orb]; discriminate|].
+    destruct (is_loader prov); [|discriminate].
+    cbn [heap]. rewrite nth_error_snoc. cbn [m_params].
+    apply load_imps_nofuel with (bound := fuel).
+    + intros f' fr' s0 s0' H0. eapply load_new_mono. exact H0.
+    + intros f' fr' s0 Hf' Hn' Hb'. apply IH; assumption.
+    + cbn [allm]. pose proof (unreg_set_lt w f (length (heap s)) (allm s) Hlt Hf). lia.
+Qed.
+
+Lemma load_new_top_nofuel fuel w prov opn fn fr p reg s :
+  length w <= fuel -> load_new (S fuel) w prov opn fn fr p reg s <> Fail EFuel.
+Proof.
+  intro Hl. cbn [load_new]. destruct (f_prim fr); [destruct (reg || is_loader prov); discriminate|].
+  destruct (is_loader prov); [|discriminate].
+  cbn [heap]. rewrite nth_error_snoc. cbn [m_params].
+  apply load_imps_nofuel with (bound := fuel).
+  - intros f' fr' s0 s0' H0. eapply load_new_mono. exact H0.
+  - intros f' fr' s0 Hf' Hn' Hb'. apply load_new_import_nofuel; assumption.
+  - pose proof (unreg_le_len w (allm {| heap := heap s ++ [{| m_file := fn; m_prim := false; m_params := Some p; m_op := opn |}];
+                                        allm := if reg then match fn with Some f => repo_set f (length (heap s)) (allm s) | None => allm s end else allm s |})). lia.
+Qed.
+
+(* the out-of-fuel value of the model is never produced by an operation *)
+Lemma run_op_never_out_of_fuel w c declared opn g o : snd (run_op w c declared opn g o) <> OErr EFuel.
+Proof.
+  unfold run_op.
+  destruct (bind_kwargs (o_entry o) (o_kw o)) as [kw|]; [|discriminate].
+  destruct (check_params declared kw); [discriminate|].
+  destruct (is_str_entry (o_entry o) && negb (o_is_str o)); [discriminate|].
+  assert (Fin : forall e prim fn fr reg s0,
+    snd (finish_load c g e prim (load_new (fuel_for w) w (c_prov c) opn fn fr kw reg s0)) <> OErr EFuel).
+  { intros e prim fn fr reg s0. unfold finish_load.
+    destruct (load_new (fuel_for w) w (c_prov c) opn fn fr kw reg s0) as [s'|x] eqn:E; cbn [snd]; [discriminate|].
+    intro X. inversion X; subst. revert E. unfold fuel_for. apply load_new_top_nofuel. lia. }
+  destruct (o_entry o) as [|f|f].
+  - apply Fin.
+  - destruct (if c_grepo c then repo_find f (g_repo g) else None); [discriminate | apply Fin].
+  - destruct (if c_grepo c then repo_find f (g_repo g) else None); [discriminate|].
+    destruct (nth_error w f); [apply Fin | discriminate].
+Qed.
